@@ -872,6 +872,27 @@ class WitnessModel(Model):
                 r.kind = 'raw'
                 return r
             return nxt(x)
+        if path == 'numpy.nextafter' and len(args) == 2 and isinstance(args[0], int | float) and isinstance(args[1], SVar):
+            # the neighbour of a plain number towards each element of an array: a constant per element (decided at the witness)
+            import math as _math
+            x0, to = float(args[0]), args[1]
+
+            def const_towards(i):
+                v = self.value(i)
+                if v is None:
+                    raise AnalysisError(f'numpy.nextafter towards a value without witness at {interp.where(node)}')
+                c = _math.nextafter(x0, float(v))
+                r = self.new(interp, Rat.const(F(repr(c))) if _math.isfinite(c) else None, i.unit, 'float64')
+                r.kind = 'raw'
+                r.members['dims'] = []
+                if _math.isfinite(c):
+                    r.members['concrete'] = c
+                return r
+            if self._is_arr(to):
+                r = self._map(interp, to, const_towards)
+                r.kind = 'raw'
+                return r
+            return const_towards(to)
         if path == 'itertools.product' and all(isinstance(a, list | tuple) for a in args) and not kwargs:
             import itertools
             from .interp import GenResult
